@@ -89,7 +89,7 @@ func init() {
 	register(&core.Property{
 		ID:    "C14",
 		Title: "Child-first relation ordering emits children before parents, once, always ends",
-		Explanation: "Structural necessary conditions on package annotate's child-first ordering, decided on every path of a path-sensitive exploration of the DFS, the constructor, the producer goroutine, Next and Close. Each of these functions is explored together with everything it statically calls inside the module (parameters bound to arguments, results bound back), with a finite abstract store (booleans; nil/non-nil; pure local comparisons) that decides branches where it can; values are compared as canonical terms that look through locals with a unique reaching definition, followed parameters, results of followed calls (path-sensitively: the one return statement that can have produced the value seen at a point, so `(value, ok, err)` triples and `(cut, err)` results are transparent), callbacks passed as function literals, conversions, aliases and named constants; the ordering's state may be grouped into struct types of the package (a context/cancel pair, a set type with methods around the map). The rules are therefore independent of how the code is cut into helpers, of if/switch/early-return shape, of temporaries and of names. Decided: " +
+		Explanation: "Structural necessary conditions on package annotate's child-first ordering, decided on every path of a path-sensitive exploration of the DFS, the constructor, the producer goroutine, Next and Close. Each of these functions is explored together with everything it statically calls inside the module (parameters bound to arguments, results bound back), with a finite abstract store (booleans; nil/non-nil; pure local comparisons) that decides branches where it can; values are compared as canonical terms that look through locals with a unique reaching definition, followed parameters, results of followed calls (path-sensitively: the one return statement that can have produced the value seen at a point, so `(value, ok, err)` triples and `(cut, err)` results are transparent), struct-valued results and locals field by field (`outcome{cut: true}`), named results with bare returns, callbacks passed as function literals, conversions, aliases and named constants; loops may be range loops or counting loops in either direction (`i := len(X)-1; i >= 0; i--`, `i := len(X); i > 0; i--` with X[i-1], `i, n := 0, len(X)`), scans may live in methods of a named path type; what the producer defers may be a method or closure that closes the channel and releases the wait group, Close may defer its Wait; the ordering's state may be grouped into struct types of the package (a context/cancel pair, a set type with methods around the map). The rules are therefore independent of how the code is cut into helpers, of if/switch/early-return shape, of temporaries and of names. Decided: " +
 			"(W1) every send on the output channel in the package is the DFS's emission of its own (never reassigned) id parameter, no second emission and no recursive call is reachable after an emission, and the emission is unreachable from the entry unless the outermost loop around the recursion is exhausted (post-order); " +
 			"(W2) every path to the emission takes the not-yet-visited edge of a membership test on the id and passes the store of the id into the visited set (or the store lies on every path after the emission); between a store and the emission attempt there is no recursion and no return; the set is only added to, and only by the DFS; every function taking part in the DFS or the producer loop is called only from the DFS and from the single producer goroutine; the explored functions contain no defer/go/recursion the exploration does not model; the producer loop evaluates the DFS for every element of the complete request list and leaves the loop unless the result is known to be nil; " +
 			"(W3) each recursive call extends the path with the id it enters and is reached only through the exhaustion edge of a complete scan of the path that compares every element with that id; a match leaves the DFS without recursing or emitting (path elements stay distinct, so depth <= number of distinct ids + 1; an inner activation of an id that is being walked higher up never reaches the emission, so cycles do not emit twice); the root call's path is empty; a non-nil child result, and a non-nil history error, end the activation with a non-nil error; a not-found history ends it with nil before any recursion or emission; " +
@@ -111,7 +111,7 @@ func init() {
 			{ID: "W5", Floor: 5, Doc: "all versions' members are walked, only relation members are followed, and nothing but the member-type test / cycle cut / visited test keeps a relation member from being walked (guard whitelist)", Run: c14W5},
 			{ID: "W6", Floor: 5, Doc: "ways out of the DFS before the emission are exactly visited / not found / error / cycle cut / cancellation", Run: c14W6},
 		},
-		Benign: append(append([]core.Mutant{}, c14Benign...), c14Benign5...),
+		Benign: c14AllBenign(),
 		Mutants: append([]core.Mutant{
 			{Name: "send-before-members", File: f, Find: c14SrcLoop + "\n" + c14SrcCtxCheck + "\n" + c14SrcEmit, Replace: c14SrcEmit + "\n" + c14SrcLoop + "\n" + c14SrcCtxCheck, ExpectRule: "W1", ExpectConstruct: "post-order@dfs"},
 			{Name: "members-only-near-root", File: f, Find: c14SrcLoop, Replace: "\tif len(path) < 2 {\n" + c14SrcLoop + "\t}\n", ExpectRule: "W1", ExpectConstruct: "members-complete@dfs"},
@@ -149,6 +149,6 @@ func init() {
 			{Name: "first-member-only", File: f, Find: "\t\t\tif err != nil {\n\t\t\t\treturn err\n\t\t\t}\n\t\t}\n", Replace: "\t\t\tif err != nil {\n\t\t\t\treturn err\n\t\t\t}\n\t\t\tbreak\n\t\t}\n", ExpectRule: "W5", ExpectConstruct: "all-members@dfs"},
 			{Name: "depth-limited-walk", File: f, Find: "\tfor _, r := range relations {\n", Replace: "\tif len(path) > 2 {\n\t\treturn nil\n\t}\n\n\tfor _, r := range relations {\n", ExpectRule: "W6", ExpectConstruct: "exit@dfs"},
 			{Name: "visited-is-an-error", File: f, Find: "\tif _, ok := o.visited[id]; ok {\n\t\treturn nil\n", Replace: "\tif _, ok := o.visited[id]; ok {\n\t\treturn context.Canceled\n", ExpectRule: "W6", ExpectConstruct: "exit@dfs"},
-		}, append(append([]core.Mutant{}, c14MoreMutants...), c14Mutants5...)...),
+		}, c14ExtraMutants()...),
 	})
 }
